@@ -522,7 +522,11 @@ func (r *Router) processChunks() (time.Duration, error) { //nolint:cyclop
 		// Pass it to the parent via NAT
 		toParent, err := r.nat.translateOutbound(chunk)
 		if err != nil {
-			return 0, err
+			// A chunk that cannot be translated is dropped. It must not
+			// stop the router: the error would end the routing goroutine.
+			r.log.Warnf("[%s] %s", r.name, err.Error())
+
+			continue
 		}
 
 		if toParent == nil {
